@@ -1748,3 +1748,40 @@ Lemma axis_closure_correct_proof : forall g, wf_graph g -> forall ind ns m,
   (In m (ax_desc g ind ns) <-> exists n, In n ns /\ tc (edge g ind) n m) /\
   (In m (ax_anc g ind ns) <-> exists n, In n ns /\ tc (edge g ind) m n).
 Proof. intros g wf ind ns m. split; [apply ax_desc_correct | apply ax_anc_correct]; assumption. Qed.
+
+(* ------------------------------------------------------------------ known finding F30: witnesses *)
+Definition g_f30a_w : graph := [
+  {| n_name := []%N;        n_kids := [(1, true)];            n_env := [] |};
+  {| n_name := [97]%N;      n_kids := [(2, true); (3, true)]; n_env := [] |};
+  {| n_name := [122; 98]%N; n_kids := [(3, true)];            n_env := [] |};
+  {| n_name := [99]%N;      n_kids := [];                     n_env := [] |} ].
+Definition g_f30b_w : graph := [
+  {| n_name := []%N;        n_kids := [(1, true); (3, true)]; n_env := [] |};
+  {| n_name := [97]%N;      n_kids := [(2, true)];            n_env := [] |};
+  {| n_name := [119]%N;     n_kids := [(3, true)];            n_env := [] |};
+  {| n_name := [98]%N;      n_kids := [];                     n_env := [] |} ].
+
+Lemma result_paths_through_steps_refuted_proof :
+  exists g sv mode q qa found stk m,
+    wf_graph g /\ query_tree g sv mode q qa = QOk found /\ In (stk, m) found /\
+    witness_b g sv q root stk = false.
+Proof.
+  exists g_f30a_w, (sval_impl g_f30a_w), NullGlob,
+    (PCons false AChild [97]%N PNone (PCons false AChild [122; 98]%N PNone (PCons false AChild [99]%N PNone PNil))),
+    false, [([1; 3], 3)], [1; 3], 3.
+  split; [apply wf_graphb_sound; vm_compute; reflexivity|].
+  split; [vm_compute; reflexivity|]. split; [left; reflexivity | vm_compute; reflexivity].
+Qed.
+
+Lemma queryall_reports_every_witness_refuted_proof :
+  exists g sv mode q found stk,
+    wf_graph g /\ query_tree g sv mode q true = QOk found /\
+    witness_b g sv q root stk = true /\ forall m, ~ In (stk, m) found.
+Proof.
+  exists g_f30b_w, (sval_impl g_f30b_w), NullGlob,
+    (PCons false AChild [42]%N PNone (PCons false ADesc [98]%N PNone PNil)),
+    [([3], 3)], [1; 2; 3].
+  split; [apply wf_graphb_sound; vm_compute; reflexivity|].
+  split; [vm_compute; reflexivity|]. split; [vm_compute; reflexivity|].
+  intros m [H|[]]. inversion H.
+Qed.
